@@ -246,7 +246,25 @@ def start_vector(net, mode, pick):
         cand = [i for i in ints if w[i] != 0] or ints
         i = rng.choice(cand)
         w[i] = rng.choice([w[i] / 2, F(0), -w[i], w[i] + 1])
+    PRIME[pick] = (rnd, opt) if mode == "loopy" else None
     return w
+
+
+PRIME = {}
+
+
+def prime_solver(m, net, rnd, opt):
+    """Leave GLPK's basis at the loopy vertex (as after any earlier analysis of the user): optimise the objective that
+    produced the vertex, with the model objective pinned, inside a context.  Legitimate prior solver state; it makes
+    the result of a cycle-free problem whose objective was lost (zero objective) visibly loopy."""
+    with m:
+        prob = m.problem
+        pin = prob.Constraint(m.objective.expression, lb=float(opt), ub=float(opt), name="verif_prime_pin")
+        m.add_cons_vars([pin])
+        m.objective = prob.Objective(
+            sum(float(c) * m.reactions.get_by_id(r["id"]).flux_expression for c, r in zip(rnd, net["rxns"]) if c != 0),
+            direction="max")
+        m.optimize()
 
 
 def nullspace_exact(rows, n):
@@ -353,6 +371,9 @@ def run_ls(case):
                 return None, {"skipped": True, "obs": {"why": "no exactly representable starting vector"}, "stats": stats}
             fluxes = {i: float(x) for i, x in zip(ids, wq)}
             synthetic = True
+            if PRIME.get(case["pick"]) and case["pick"] % 2 == 0:
+                prime_solver(m, net, *PRIME[case["pick"]])
+                stats["primed"] = True
         m.optimize = recording
         raised, sol = False, None
         try:
